@@ -919,7 +919,11 @@ class StmtMixin(ContractMixin):
                 self.apply_cell_effect(st, ef, binders, k, s)
                 continue
             if ef.kind == "append":
-                self.apply_append(st, ef, binders, s)
+                if ef.path and ef.path[-1][0] == "k" and binders and self.key_mentions(ef.path[-1][1], binders) \
+                        and not (st.rec and ef.root in getattr(st.rec[-1], "before", ()) and ef.root not in st.rec[-1].fresh):
+                    self.apply_keyed_append(st, ef, binders, k, s)
+                else:
+                    self.apply_append(st, ef, binders, s)
                 continue
             if ef.kind == "del":
                 self.apply_del(st, ef, binders, k, s)
@@ -1001,6 +1005,30 @@ class StmtMixin(ContractMixin):
         else:
             raise Unsupported("summarised append to a non-empty list")
         self.write_h(st, ref, new)
+
+    def apply_keyed_append(self, st, ef, binders, k, s):
+        """`table[key(b)].append(v(b))` inside a summarised loop where the key determines the iteration (key inversion
+        leaves no binder undetermined, so every cell has at most one writer): the cell of key y becomes
+        old(y) ++ [v(b(y))] - a keyed `set` of the extended list. With several possible writers per cell the order of
+        the appended elements would matter: refused."""
+        path = list(ef.path)
+        cont = self.resolve(st, VRef(ef.root, tuple(path[:-1])))
+        if not isinstance(cont, HDict) or cont.val is None:
+            raise Unsupported("summarised append into a keyed cell of this container kind")
+        x = path[-1][1]
+        xx, pairs, resid, und = self.invert_key(st, binders, x, cont.kty, partial=True)
+        kt = self.lower(x, cont.kty)
+        if und:
+            # the key is not syntactically invertible (e.g. `start + i`): side obligation - no two iterations append
+            # to the same cell (then the set-summary below, which picks the unique writer as witness, is exact)
+            ren = [(b, z3.Const(f"{b}!a{next(self.ctx.counter)}", b.sort())) for b in binders]
+            goal = z3.Implies(t_and(ef.guard, z3.substitute(ef.guard, *ren), kt == z3.substitute(kt, *ren)), t_and(*[b == r for b, r in ren]))
+            self.ctx.obls.append(self.mk_obl(st, f"foreach-side#{k}/unique-appender", self.forall(list(binders) + [r for _, r in ren], goal), "foreach", self.where(s, st)))
+        if not isinstance(cont.val, HSeq) or cont.default != "list":
+            raise Unsupported("summarised append into a keyed cell that is not a defaultdict(list) of value sequences")
+        if isinstance(self.force(st, ef.value), VRef):
+            raise Unsupported("summarised append of a container reference")
+        self.apply_cell_effect(st, Effect("append", ef.root, ef.path, ef.value, ef.guard, ef.binders, where=ef.where), binders, k, s)
 
     def set_existing(self, st, name, v):
         f = st.frame
@@ -1154,6 +1182,21 @@ class StmtMixin(ContractMixin):
             if as_list is not None:
                 return HListC(as_list.length, as_list.binder, self.binop(st, ast.Add(), oldv, contrib), as_list.elem_ty)
             return HDict(cur.kty, cur.binder, newdom, self.binop(st, ast.Add(), oldv, contrib), cur.default, cur.vty)
+        if ef.kind == "append":
+            # keyed append with at most one writer per cell (side obligation unique-appender / invertible key):
+            # cell y becomes old(y) ++ [v(writer of y)]; a missing cell of a defaultdict(list) starts empty
+            if not isinstance(cur.val, HSeq) or cur.default != "list":
+                raise Unsupported("summarised append into a keyed cell that is not a defaultdict(list) of value sequences")
+            g1 = inst(t_and(ef.guard, resid))
+            v = subst(subst(self.force(st, ef.value), pairs), [(xx, y)])
+            if und:
+                cp, hit = self.choose(st, y, und, g1)
+                v = subst(v, cp)
+            else:
+                hit = z3.simplify(g1)
+            oldt = z3.If(cur.dom, cur.val.t, z3.Empty(cur.val.t.sort()))
+            newt = z3.If(hit, z3.Concat(oldt, z3.Unit(self.lower(v, cur.val.elem_ty))), cur.val.t)
+            return HDict(cur.kty, cur.binder, z3.simplify(t_or(cur.dom, hit)), HSeq(cur.val.elem_ty, newt), cur.default, cur.vty)
         # set
         body = inst(t_and(ef.guard, resid))
 
